@@ -27,7 +27,8 @@
 (*           callback handler; in stream form: its own concatenation)      *)
 (*   result  out <<[id,role,content,nil]>>  the returned list (stream      *)
 (*           form: the library's own concatenation of all chunks)          *)
-(*   error   errs <<[name,args]>> tool errors found in the error chain /   *)
+(*   error   as BOOLEAN (errors.As finds a tool's error in the chain),      *)
+(*           errs <<[name,args]>> tool errors found in the error chain /   *)
 (*           text, panic BOOLEAN (the text reports a recovered panic)      *)
 (*   escaped a panic reached the caller of Invoke/Stream/Recv (and was     *)
 (*           recovered there by the harness)                               *)
@@ -125,6 +126,9 @@ ErrorRule(S, e) ==
   ELSE IF /\ ~Unhandled(S.c) /\ Panicked(S) = {}
           /\ ~\E r \in Failed(S) : [name |-> r.name, args |-> r.args] \in Range(e.errs)
        THEN Bad(S, "error-is-not-the-error-of-a-failing-tool")
+  \* R3 "with that tool's error": when the call failed only because of failing tools, the tool's error is recoverable from the
+  \* returned error (errors.As finds it), in the Invoke form and in the Stream form alike
+  ELSE IF ~Unhandled(S.c) /\ Panicked(S) = {} /\ ~e.as THEN Bad(S, "tool-error-not-recoverable-from-the-returned-error")
   ELSE [S EXCEPT !.term = "error"]
 
 EscapedRule(S, e) ==
